@@ -17,7 +17,9 @@ import (
 	"fmt"
 	"html"
 	"html/template"
+	"io"
 	"net/http"
+	"net/http/httptest"
 	"net/url"
 	"os"
 	"regexp"
@@ -208,10 +210,13 @@ var webURIs = []string{"https://app.example.com/cb", "https://app.example.com/cb
 	"https://app.example.com/a%20b", "http://localhost/cb", "http://127.0.0.1:8080/cb", "https://app.example.com/cb#frag",
 	"https://other.example.org/oidc/callback", "myapp://callback",
 	// registered URIs that contain glob metacharacters (IPv6 literal, query, literal * and braces)
-	"https://[2001:db8::1]/cb", "https://rp.example/cb?src=op", "https://app.example.com/cb/*", "https://app.example.com/{a,b}/cb"}
+	"https://[2001:db8::1]/cb", "https://rp.example/cb?src=op", "https://app.example.com/cb/*", "https://app.example.com/{a,b}/cb",
+	// trailing slash, upper case and a space inside the registration itself
+	"https://app.example.com/cb/", "https://App.Example.com/CB", "https://app.example.com/a b"}
 var nativeURIs = []string{"http://localhost/cb", "http://127.0.0.1/cb", "http://127.0.0.1:8080/cb?a=b", "http://[::1]/cb",
 	"com.example.app:/cb", "myapp://callback", "https://app.example.com/cb", "http://app.example.com/cb", "https://localhost/cb",
-	"http://localhost:3000/auth/callback", "http://[::1]:8080/cb?x=1", "https://[2001:db8::1]/cb", "myapp://cb?x=*"}
+	"http://localhost:3000/auth/callback", "http://[::1]:8080/cb?x=1", "https://[2001:db8::1]/cb", "myapp://cb?x=*",
+	"http://localhost/cb/", "MyApp://Callback"}
 var globPool = []string{"https://*.example.com/cb", "https://app.example.com/**", "https://app.example.com/{cb,cb2}",
 	"http://localhost:*/cb", "myapp://*", "https://app.example.com/c?", "http://127.0.0.1:*/**", "https://[", "https://app.example.com/[a-",
 	"https://app.example.com/{cb", "http://*/cb", "**"}
@@ -256,6 +261,14 @@ func genClient(r drv.Rand, id string) *refstore.Client {
 	if r.Chance(1, 3) {
 		c.LoginPrefix = "https://login.example.com/l?id="
 	}
+	if r.Chance(1, 40) { // a registration longer than 1 KiB / 4 KiB
+		c.Redirects = append(c.Redirects, drv.Pick(r, pool[:3])+longPad(r))
+	}
+	// the authorization endpoint does not authenticate the client: the method must not matter
+	c.Auth = drv.Pick(r, []oidc.AuthMethod{oidc.AuthMethodBasic, oidc.AuthMethodBasic, oidc.AuthMethodPost, oidc.AuthMethodNone, oidc.AuthMethodPrivateKeyJWT})
+	if c.Auth == oidc.AuthMethodNone {
+		c.Secret = ""
+	}
 	return withKey(c)
 }
 
@@ -266,9 +279,75 @@ func swapHost(u, from, to string) (string, bool) {
 	return u, false
 }
 
+func longPad(r drv.Rand) string {
+	return drv.Pick(r, []string{"?pad=", "/pad/", "#pad"}) + strings.Repeat("a", drv.Pick(r, []int{1100, 4200}))
+}
+
+// foldVariant: s with one letter replaced by a character that only Unicode case folding maps back to it
+// (U+212A KELVIN SIGN, U+017F LONG S), or with its case changed in one part.
+func foldVariant(r drv.Rand, s string) string {
+	switch r.IntN(5) {
+	case 0:
+		if i := strings.LastIndexAny(s, "kK"); i >= 0 {
+			return s[:i] + "\u212a" + s[i+1:]
+		}
+	case 1:
+		if i := strings.LastIndexAny(s, "sS"); i >= 0 {
+			return s[:i] + "\u017f" + s[i+1:]
+		}
+	case 2:
+		return strings.ToUpper(s)
+	case 3:
+		return strings.ToLower(s)
+	}
+	if i := strings.LastIndexByte(s, '/'); i >= 0 && i+1 < len(s) { // case of the last path segment only
+		if up := s[:i+1] + strings.ToUpper(s[i+1:]); up != s {
+			return up
+		}
+		return s[:i+1] + strings.ToLower(s[i+1:])
+	}
+	return strings.ToUpper(s)
+}
+
+// relative: a non-empty reference without scheme and host. http.Redirect resolves those against the
+// path of the request, so what the user agent follows is not the string itself; they are only sent
+// where they cannot be accepted (see genURI).
+func relative(u string) bool {
+	pu, err := url.Parse(u)
+	return err == nil && u != "" && pu.Scheme == "" && pu.Host == ""
+}
+
 // mutate derives a requested redirect_uri from a registered one.
 func mutate(r drv.Rand, base string) (string, string) {
-	switch k := r.IntN(14); k {
+	u, kind := mutate0(r, base)
+	if relative(u) {
+		u += ":"
+	}
+	return u, kind
+}
+
+func mutate0(r drv.Rand, base string) (string, string) {
+	switch k := r.IntN(19); k {
+	case 14: // what TrimSpace / form decoding / a lenient comparison would forgive
+		ws := drv.Pick(r, []string{" ", "\t", "\r", "\n", "\r\n", "%20", "%09", "%0A", "%0D%0A", "+", "\u00a0", "\x00"})
+		if r.Bool() {
+			return base + ws, "space"
+		}
+		return ws + base, "space"
+	case 15: // trailing slash on one side only
+		if strings.HasSuffix(base, "/") {
+			return strings.TrimSuffix(base, "/"), "slash"
+		}
+		return base + drv.Pick(r, []string{"/", "//", "/."}), "slash"
+	case 16:
+		return foldVariant(r, base), "fold"
+	case 17: // literals that sloppy code takes for "absent"
+		return drv.Pick(r, []string{"null", "NULL", "nil", "undefined", "true", "false", "0", "[]", "{}", "none", "about:blank"}), "keyword"
+	case 18:
+		if r.Chance(1, 3) {
+			return base + longPad(r), "long"
+		}
+		return base + "?" + strings.Repeat("x", 60), "long"
 	case 0:
 		return base + drv.Pick(r, []string{"/x", "x", "?x=1", "#f", "/../evil", "%2f..", "/", "&x=1", "?"}), "suffix"
 	case 1:
@@ -403,7 +482,11 @@ func genURI(r drv.Rand, c *refstore.Client) (string, string) {
 	if r.Chance(2, 5) {
 		return base, "exact"
 	}
-	return mutate(r, base)
+	u, kind := mutate(r, base)
+	if kind == "keyword" && !c.UseGlobs && u != "about:blank" { // the bare literal where nothing can match it
+		u = strings.TrimSuffix(u, ":")
+	}
+	return u, kind
 }
 
 func genRT(r drv.Rand) string {
@@ -686,6 +769,65 @@ type hop struct {
 	k      int // login / callback target; -1 = no id
 	fault  int // callback: 0 none 1 AuthRequestByID 2 GetClientByClientID 3 SaveAuthCode
 	fkind  errKind
+	cut    int // write fault on the answer: 0 none, 1 early (cutN bytes of the body pass), 2 late (cutN bytes pass behind the first form tag)
+	cutN   int // not a model dimension
+}
+
+var cutNames = []string{"W_None", "W_Early", "W_Late"}
+
+// cutWriter: a ResponseWriter whose connection fails while the body is written (as the writer of
+// http.TimeoutHandler after its time-out, a reset HTTP/2 stream, a closed connection). Status and
+// headers are recorded as net/http would send them (first WriteHeader wins, headers frozen then).
+type cutWriter struct {
+	rec    *httptest.ResponseRecorder
+	late   bool
+	left   int
+	failed bool
+}
+
+func (c *cutWriter) Header() http.Header  { return c.rec.Header() }
+func (c *cutWriter) WriteHeader(code int) { c.rec.WriteHeader(code) }
+func (c *cutWriter) Write(b []byte) (int, error) {
+	if c.failed {
+		return 0, http.ErrHandlerTimeout
+	}
+	pass := c.left
+	if c.late {
+		if i := bytes.Index(b, []byte("<form")); i >= 0 {
+			if j := bytes.IndexByte(b[i:], '>'); j >= 0 {
+				pass = i + j + 1 + c.left
+			}
+		}
+	}
+	if len(b) <= pass {
+		if !c.late {
+			c.left -= len(b)
+		}
+		return c.rec.Write(b)
+	}
+	c.failed = true
+	c.rec.Write(b[:pass])
+	return pass, http.ErrHandlerTimeout
+}
+
+// doCut: opfix.Do with a failing connection.
+func doCut(h http.Handler, req *http.Request, late bool, n int) *opfix.Resp {
+	cw := &cutWriter{rec: httptest.NewRecorder(), late: late, left: n}
+	out := &opfix.Resp{}
+	func() {
+		defer func() {
+			if x := recover(); x != nil {
+				out.Panic = fmt.Sprint(x)
+			}
+		}()
+		h.ServeHTTP(cw, req)
+	}()
+	res := cw.rec.Result()
+	out.Status = res.StatusCode
+	out.Header = res.Header
+	b, _ := io.ReadAll(res.Body)
+	out.Body = string(b)
+	return out
 }
 
 func routerName(r opfix.Router) string {
@@ -698,7 +840,7 @@ func routerName(r opfix.Router) string {
 func (h hop) term() string {
 	switch h.kind {
 	case 0:
-		return emit.Ctor("Authorize", routerName(h.router), h.q.term())
+		return emit.Ctor("Authorize", routerName(h.router), h.q.term(), cutNames[h.cut])
 	case 1:
 		return emit.Ctor("Login", emit.Nat(h.k))
 	default:
@@ -715,20 +857,22 @@ func (h hop) term() string {
 		case 3:
 			ft = emit.Ctor("CF_SaveCode", h.fkind.term())
 		}
-		return emit.Ctor("Callback", routerName(h.router), k, ft)
+		return emit.Ctor("Callback", routerName(h.router), k, ft, cutNames[h.cut])
 	}
 }
 
-func pageTerm(resp *opfix.Resp) string {
+func pageTerm(resp *opfix.Resp, cut int) string {
 	code := ""
-	if resp.JSON != nil {
+	if resp.JSON != nil && cut == 0 { // of a page whose body was cut only the status is observed
 		code = resp.OAuthError()
 	}
 	return emit.Ctor("OPage", fmt.Sprintf("%d%%N", resp.Status), emit.Str(code))
 }
 
 // observe projects a response to the `out` vocabulary. newID/prefix: for authorize.
-func observe(resp *opfix.Resp, newID, prefix string) string {
+// cut: the write fault the answer was written under. What the user agent would follow is the
+// Location of a 302 and otherwise the FIRST form of the page.
+func observe(resp *opfix.Resp, newID, prefix string, cut int) string {
 	switch {
 	case resp.Panic != "":
 		return "OPanic"
@@ -746,11 +890,14 @@ func observe(resp *opfix.Resp, newID, prefix string) string {
 			}
 			return emit.Ctor("OForm", emit.Str(t))
 		}
+		if cut == 1 {
+			return "OUndelivered"
+		}
 		return "OOther"
 	case resp.Status >= 300 && resp.Status < 400:
 		return "OOther"
 	default:
-		return pageTerm(resp)
+		return pageTerm(resp, cut)
 	}
 }
 
@@ -824,8 +971,20 @@ func newSession(reqobj bool, clients []*refstore.Client) *session {
 	return &session{reqobj: reqobj, clients: clients, store: store, f: f, fail: fail, notfound: nf}
 }
 
+// get sends one GET to the fixture, with the write fault of h if it has one.
+func (s *session) get(h hop, path string, q url.Values) *opfix.Resp {
+	if h.cut == 0 {
+		return s.f.GetAt(h.router, hostOf(h.q), "", path, q)
+	}
+	target := "https://" + hostOf(h.q) + path
+	if q != nil {
+		target += "?" + q.Encode()
+	}
+	return doCut(s.f.Handlers[h.router], httptest.NewRequest(http.MethodGet, target, nil), h.cut == 2, h.cutN)
+}
+
 func (s *session) step(h hop) {
-	store, f := s.store, s.f
+	store := s.store
 	s.opTerms = append(s.opTerms, h.term())
 	store.FaultMethod = ""
 	switch h.kind {
@@ -841,7 +1000,7 @@ func (s *session) step(h hop) {
 		if m := []string{"", "GetClientByClientID", "CreateAuthRequest"}[h.q.fault]; m != "" {
 			s.fail.Errs[m] = h.q.fkind.mk()
 		}
-		resp := f.GetAt(h.router, hostOf(h.q), "", "/authorize", h.q.values())
+		resp := s.get(h, "/authorize", h.q.values())
 		clear(s.fail.Errs)
 		newID, prefix := "", ""
 		var fresh []string
@@ -857,7 +1016,7 @@ func (s *session) step(h hop) {
 				prefix = loginPrefix(c)
 			}
 		}
-		o := observe(resp, newID, prefix)
+		o := observe(resp, newID, prefix, h.cut)
 		if newID != "" {
 			if strings.HasPrefix(o, "(OLogin") {
 				s.ids = append(s.ids, newID)
@@ -866,7 +1025,7 @@ func (s *session) step(h hop) {
 			}
 		}
 		s.outs = append(s.outs, o)
-		s.human = append(s.human, map[string]any{"op": "authorize", "router": h.router.String(), "query": h.q.values(), "status": resp.Status, "location": resp.Header.Get("Location"), "body": trunc(resp.Body)})
+		s.human = append(s.human, map[string]any{"op": "authorize", "router": h.router.String(), "query": h.q.values(), "write_fault": cutNames[h.cut], "write_fault_bytes": h.cutN, "status": resp.Status, "location": resp.Header.Get("Location"), "body": trunc(resp.Body)})
 	case 1:
 		if h.k < len(s.ids) {
 			store.Login(s.ids[h.k], "alice")
@@ -885,10 +1044,10 @@ func (s *session) step(h hop) {
 		if m := []string{"", "AuthRequestByID", "GetClientByClientID", "SaveAuthCode"}[h.fault]; m != "" {
 			s.fail.Errs[m] = h.fkind.mk()
 		}
-		resp := f.GetAt(h.router, hostOf(h.q), "", "/authorize/callback", q)
+		resp := s.get(h, "/authorize/callback", q)
 		clear(s.fail.Errs)
-		s.outs = append(s.outs, observe(resp, "", ""))
-		s.human = append(s.human, map[string]any{"op": "callback", "router": h.router.String(), "k": h.k, "fault": h.fault, "status": resp.Status, "location": resp.Header.Get("Location"), "body": trunc(resp.Body)})
+		s.outs = append(s.outs, observe(resp, "", "", h.cut))
+		s.human = append(s.human, map[string]any{"op": "callback", "router": h.router.String(), "k": h.k, "fault": h.fault, "write_fault": cutNames[h.cut], "write_fault_bytes": h.cutN, "status": resp.Status, "location": resp.Header.Get("Location"), "body": trunc(resp.Body)})
 	}
 }
 
@@ -924,6 +1083,9 @@ func pickRouter(r drv.Rand) opfix.Router {
 	return opfix.Provider
 }
 
+// response modes: the three defined ones, absent, and values that only a lenient comparison would accept
+var histModes = []string{"", "", "", "", "query", "query", "fragment", "fragment", "form_post", "form_post", "bogus", "null", "FORM_POST", "form_post ", "Query", " fragment"}
+
 func genHistory(r drv.Rand, w *emit.Writer) {
 	nc := 1 + r.IntN(2)
 	var clients []*refstore.Client
@@ -949,7 +1111,7 @@ func genHistory(r drv.Rand, w *emit.Writer) {
 			uri, kind = drv.Pick(r, c.Redirects), "exact"
 		}
 		q := areq{client: c.ID, uri: uri, rt: drv.Pick(r, []string{"code", "code", "code", "id_token token", "id_token"}),
-			mode: drv.Pick(r, []string{"", "", "", "query", "fragment", "form_post", "bogus"})}
+			mode: drv.Pick(r, histModes)}
 		muts = append(muts, kind)
 		mut := "none"
 		if r.Chance(2, 5) { // an error-provoking parameter before / after URI validation
@@ -977,7 +1139,7 @@ func genHistory(r drv.Rand, w *emit.Writer) {
 			case 8:
 				q.rt, mut = drv.Pick(r, []string{"", "token", "code id_token"}), "rt"
 			case 9:
-				q.client, mut = drv.Pick(r, []string{"", "nobody"}), "client"
+				q.client, mut = drv.Pick(r, []string{"", "nobody", strings.ToUpper(c.ID), c.ID + " ", " " + c.ID, c.ID + "\x00", "null", "undefined"}), "client"
 			default:
 				q.uri, mut = "", "nouri"
 			}
@@ -1091,6 +1253,197 @@ func genHistory(r drv.Rand, w *emit.Writer) {
 	s.emit(w, tags)
 }
 
+func genCut(r drv.Rand) (int, int) {
+	if r.Chance(1, 4) {
+		return 2, drv.Pick(r, []int{0, 1, 40, 200})
+	}
+	return 1, drv.Pick(r, []int{0, 0, 1, 16, 64, 100})
+}
+
+// genSequence: several clients answered by ONE provider instance, mostly on the success path, in
+// every response mode; all authorizations first, then the logins, then the callbacks in a random
+// order with replays; the connection fails while one or more of the answers are written. Every
+// answer - in particular the ones AFTER an undelivered one - is judged against its own request.
+func genSequence(r drv.Rand, w *emit.Writer) {
+	nc := 2 + r.IntN(3)
+	var clients []*refstore.Client
+	for i := 0; i < nc; i++ {
+		c := genClient(r, fmt.Sprintf("c%d", i))
+		if r.Chance(3, 4) {
+			c.RespTypes = allRT
+		}
+		clients = append(clients, c)
+	}
+	reqobj := r.Bool()
+	dynamicIssuer = r.Chance(1, 6)
+	dyn := dynamicIssuer
+	sessionNotFound = genErrKind(r)
+	nfTag := sessionNotFound.tag()
+	s := newSession(reqobj, clients)
+	dynamicIssuer = false
+	sessionNotFound = errKind{}
+	var ops []hop
+	do := func(h hop) { ops = append(ops, h); s.step(h) }
+	modes := []string{"", "query", "fragment", "form_post", "form_post", "form_post"}
+	sessMode, oneMode := drv.Pick(r, modes), r.Chance(2, 3)
+	nflows := 2 + r.IntN(4)
+	first := r.IntN(nc)
+	host := func() string {
+		if dyn {
+			return drv.Pick(r, []string{"a.example.com", "b.example.com"})
+		}
+		return ""
+	}
+	cutTags := map[string]bool{}
+	cutOf := func(h *hop, p, q int) {
+		if r.Chance(p, q) {
+			h.cut, h.cutN = genCut(r)
+			cutTags["cut="+[]string{"", "early", "late"}[h.cut]] = true
+		}
+	}
+	modeTags := map[string]bool{}
+	type prevReq struct {
+		ci  int
+		uri string
+	}
+	var prev []prevReq
+	for fl := 0; fl < nflows; fl++ {
+		ci := (first + fl) % nc // neighbouring flows belong to different clients
+		c := clients[ci]
+		uri, rt := drv.Pick(r, c.Redirects), drv.Pick(r, []string{"code", "code", "id_token token", "id_token"})
+		switch r.IntN(12) {
+		case 0, 1:
+			uri, _ = genURI(r, c)
+		case 2: // a URI that ANOTHER client of this provider registered (and may just have used)
+			uri = drv.Pick(r, clients[(first+fl+1)%nc].Redirects)
+		case 3, 4: // the (client, URI) of an earlier request again, with another response type / mode
+			if len(prev) > 0 {
+				p := drv.Pick(r, prev)
+				ci, uri = p.ci, p.uri
+				c = clients[ci]
+			}
+		case 5: // the URI of an earlier request, by another client
+			if len(prev) > 0 {
+				uri = drv.Pick(r, prev).uri
+			}
+		}
+		prev = append(prev, prevReq{ci, uri})
+		mode := sessMode
+		if !oneMode {
+			mode = drv.Pick(r, modes)
+			if r.Chance(1, 8) {
+				mode = drv.Pick(r, histModes)
+			}
+		}
+		modeTags["mode="+mode] = true
+		q := areq{client: c.ID, uri: uri, rt: rt, mode: mode, host: host()}
+		if r.Chance(1, 8) { // a request that leaves out what its neighbours carry, or fails late
+			switch r.IntN(6) {
+			case 0:
+				q.uri = ""
+			case 1:
+				q.client = drv.Pick(r, []string{"", "nobody"})
+			case 2:
+				q.prompt = 2
+			case 3:
+				q.noscope = true
+			case 4:
+				q.fault, q.fkind = 2, genErrKind(r)
+			default:
+				q.rt = ""
+			}
+		}
+		h := hop{kind: 0, router: pickRouter(r), q: q}
+		cutOf(&h, 1, 8)
+		do(h)
+	}
+	n := len(s.ids)
+	for k := 0; k < n; k++ {
+		if !r.Chance(1, 10) {
+			do(hop{kind: 1, k: k})
+		}
+	}
+	order := make([]int, n)
+	for i := range order {
+		order[i] = i
+	}
+	for i := n - 1; i > 0; i-- {
+		j := r.IntN(i + 1)
+		order[i], order[j] = order[j], order[i]
+	}
+	sure := -1 // one callback whose answer is certainly cut (not the last one: something must follow)
+	if n > 1 {
+		sure = r.IntN(n - 1)
+	}
+	for i, k := range order {
+		h := hop{kind: 2, router: pickRouter(r), k: k, q: areq{host: host()}}
+		if i == sure {
+			cutOf(&h, 1, 1)
+		} else {
+			cutOf(&h, 1, 4)
+		}
+		if r.Chance(1, 8) {
+			h.fault, h.fkind = 1+r.IntN(3), genErrKind(r)
+		}
+		do(h)
+		if r.Chance(1, 3) { // replay (a code-flow request stays usable), maybe of an undelivered answer
+			h2 := hop{kind: 2, router: pickRouter(r), k: order[r.IntN(i+1)], q: areq{host: host()}}
+			cutOf(&h2, 1, 5)
+			do(h2)
+		}
+	}
+	tags := []string{"kind=sequence", fmt.Sprintf("clients=%d", nc), fmt.Sprintf("reqobj=%v", reqobj), fmt.Sprintf("dynissuer=%v", dyn), "notfound=" + nfTag}
+	for _, m := range []map[string]bool{cutTags, modeTags} {
+		var ks []string
+		for k := range m {
+			ks = append(ks, k)
+		}
+		sort.Strings(ks)
+		tags = append(tags, ks...)
+	}
+	seen := map[string]bool{}
+	for _, o := range ops {
+		t := "router=" + o.router.String()
+		if o.kind != 1 && !seen[t] {
+			seen[t] = true
+			tags = append(tags, t)
+		}
+	}
+	for _, c := range clients {
+		if hasBadGlob(c) && !seen["badglob"] {
+			seen["badglob"] = true
+			tags = append(tags, "badglob=1")
+		}
+	}
+	s.emit(w, tags)
+}
+
+// directedCut: three clients, every response mode, both routers; the answer for the first client is
+// cut while it is written, the answers for the others (and a replay for the first) follow.
+func directedCut(w *emit.Writer) {
+	a := &refstore.Client{ID: "c0", App: op.ApplicationTypeWeb, RespTypes: allRT, Redirects: []string{"https://app.example.com/cb?x=1"}, ATType: op.AccessTokenTypeBearer}
+	b := &refstore.Client{ID: "c1", App: op.ApplicationTypeUserAgent, RespTypes: allRT, Redirects: []string{"https://other.example.org/oidc/callback"}, ATType: op.AccessTokenTypeBearer,
+		LoginPrefix: "https://login.example.com/l?id="}
+	n := &refstore.Client{ID: "c2", App: op.ApplicationTypeNative, RespTypes: allRT, Redirects: []string{"http://127.0.0.1/cb", "myapp://callback"}, ATType: op.AccessTokenTypeBearer}
+	for _, router := range []opfix.Router{opfix.Provider, opfix.Legacy} {
+		for _, mode := range []string{"", "query", "fragment", "form_post"} {
+			for _, rt := range []string{"code", "id_token token"} {
+				for _, cut := range [][2]int{{1, 0}, {1, 64}, {2, 10}} {
+					ops := []hop{
+						{kind: 0, router: router, q: areq{client: "c0", uri: "https://app.example.com/cb?x=1", rt: rt, mode: mode}},
+						{kind: 0, router: router, q: areq{client: "c1", uri: "https://other.example.org/oidc/callback", rt: rt, mode: mode}, cut: cut[0], cutN: cut[1]},
+						{kind: 0, router: router, q: areq{client: "c2", uri: "http://[::1]:7777/cb", rt: rt, mode: mode}},
+						{kind: 1, k: 0}, {kind: 1, k: 1}, {kind: 1, k: 2},
+						{kind: 2, router: router, k: 0, cut: cut[0], cutN: cut[1]}, {kind: 2, router: router, k: 1},
+						{kind: 2, router: router, k: 2, cut: cut[0], cutN: cut[1]}, {kind: 2, router: router, k: 0}, {kind: 2, router: router, k: 7, cut: cut[0], cutN: cut[1]}}
+					runHistory(w, false, []*refstore.Client{a, b, n}, ops, []string{"kind=sequence", "directed=writefault", "router=" + router.String(), "mode=" + mode,
+						"cut=" + []string{"", "early", "late"}[cut[0]]})
+				}
+			}
+		}
+	}
+}
+
 // directed cases that must stay in every run (former defect F14 and friends)
 func directed(r drv.Rand, w *emit.Writer) {
 	bad := &refstore.Client{ID: "c0", App: op.ApplicationTypeWeb, RespTypes: allRT, Redirects: []string{"https://app.example.com/cb"},
@@ -1156,18 +1509,25 @@ func main() {
 	w := emit.NewWriter(cfg.Out, "C03_spec", shard, cfg.Only)
 	directed(r, w)
 	directedRO(w)
+	directedCut(w)
 	nv := cfg.Count(900, 14000)
 	nh := cfg.Count(700, 10000)
+	ns := cfg.Count(200, 3000)
+	// the three kinds interleaved in fixed proportion, so that every shard gets the same mix (the
+	// history and sequence cases are the expensive ones for coqc)
 	for i := 0; i < nv; i++ {
 		c := genClient(r, "c0")
 		u, kind := genURI(r, c)
 		validateCase(r, w, c, u, kind, genRT(r))
-	}
-	for i := 0; i < nh; i++ {
-		genHistory(r, w)
+		for j := i * nh / nv; j < (i+1)*nh/nv; j++ {
+			genHistory(r, w)
+		}
+		for j := i * ns / nv; j < (i+1)*ns/nv; j++ {
+			genSequence(r, w)
+		}
 	}
 	err := w.Close(emit.Meta{Property: "C03", Tier: cfg.Tier, Seed: cfg.Seed,
-		Rule: "validate: random registration (app type x dev x response types x 1-3 registered URIs x optional globs incl. malformed) x requested URI = registered one, mutated (suffix/prefix/userinfo/host case/port/loopback swaps/scheme/custom/glob metacharacters/foreign/empty/unparseable) or glob instance, x response_type; history: 1-2 flows Authorize->Login->Callback over HTTP on random routers with 0-1 error-provoking parameter (before or after URI validation), really signed request objects (client key registered in the storage; redirect_uri / response_type / response_mode / prompt / scope inside equal to or different from the plain parameters; wrong key, kid, iss, aud, client_id), storage faults returning plain / typed / redirect-disabled errors, dynamic issuer with several hosts, skipped login, replayed/unknown callbacks, all response modes; plus directed F14 and happy-flow cases. non-trivial = model path class != 0 (validate: non-empty URI; history: at least one answer that is not an error page); distinct = distinct Coq input terms",
+		Rule: "validate: random registration (app type x dev x response types x 1-3 registered URIs x optional globs incl. malformed) x requested URI = registered one, mutated (suffix/prefix/userinfo/host case/port/loopback swaps/scheme/custom/glob metacharacters/foreign/empty/unparseable) or glob instance, x response_type; history: 1-2 flows Authorize->Login->Callback over HTTP on random routers with 0-1 error-provoking parameter (before or after URI validation), really signed request objects (client key registered in the storage; redirect_uri / response_type / response_mode / prompt / scope inside equal to or different from the plain parameters; wrong key, kid, iss, aud, client_id), storage faults returning plain / typed / redirect-disabled errors, dynamic issuer with several hosts, skipped login, replayed/unknown callbacks, all response modes; sequence: 2-4 clients on one provider instance, 2-5 flows of neighbouring different clients mostly on the success path in one response mode per session (or mixed), all authorizations, then logins, then the callbacks in random order with replays, one or more answers written under a write fault (ResponseWriter.Write failing after 0-100 bytes, or behind the first form tag), each answer judged by the Location / FIRST form action the user agent would follow; plus directed F14, happy-flow and write-fault cases. non-trivial = model path class != 0 (validate: non-empty URI; history: at least one answer that is not an error page); distinct = distinct Coq input terms",
 	})
 	if err != nil {
 		fmt.Fprintln(os.Stderr, err)
